@@ -248,7 +248,7 @@ func cmdParse(args []string) error {
 	}
 	var lang, steps, shape, budget, round, specround []mm
 	by := map[string]int{}
-	n, unm, nb := 0, 0, 0
+	n, unm, nb, sweeps := 0, 0, 0, 0
 	var samples []interface{}
 	sc := bufio.NewScanner(f)
 	sc.Buffer(make([]byte, 1<<20), 1<<28)
@@ -346,6 +346,18 @@ func cmdParse(args []string) error {
 				}
 				if !ok {
 					add(&budget, fmt.Sprintf("budget n=%d, N=%d", b, N), want, gb)
+				}
+			}
+			// for cheap inputs every budget from 1 to N + 2: exact threshold, monotone, no budget below N succeeds
+			if N <= 1600 && sweeps < 12 {
+				sweeps++
+				for b := uint64(1); b <= N+2; b++ {
+					nb++
+					gb := realParse(src, b)
+					if (b < N && gb.Acc != "budget") || (b >= N && gb.Acc != got.Acc) {
+						add(&budget, fmt.Sprintf("budget sweep n=%d, N=%d", b, N), map[bool]string{true: "budget error", false: "same as unlimited"}[b < N], gb)
+						break
+					}
 				}
 			}
 			// a budget belongs to one parse: the next unlimited parse is what it was before
